@@ -19,7 +19,7 @@ def clsId (names : Names) (n : String) : R Nat :=
 def clsName (names : Names) (i : Nat) : String := names.getD i s!"?{i}"
 
 /-- canonical value tree (DESIGN Appendix A) → `Val` -/
-partial def parseVal (names : Names) (j : Json) : R Val := do
+partial def subParseVal (names : Names) (j : Json) : R Val := do
   match (← str j "t") with
   | "int" =>
     match (← str j "v").toInt? with
@@ -27,31 +27,31 @@ partial def parseVal (names : Names) (j : Json) : R Val := do
     | none => throw "bad int"
   | "str" => return .str (chars (← str j "v"))
   | "none" => return .none
-  | "list" => return .list (← (← arr j "v").toList.mapM (parseVal names))
+  | "list" => return .list (← (← arr j "v").toList.mapM (subParseVal names))
   | "dict" =>
     let items ← (← arr j "v").toList.mapM (fun p => do
       match p with
-      | .arr #[k, v] => return (chars (← str k "v"), ← parseVal names v)
+      | .arr #[k, v] => return (chars (← str k "v"), ← subParseVal names v)
       | _ => throw "bad dict item")
     return .dict items
   | "inst" =>
     let c ← clsId names (← str j "cls")
     let fs ← (← arr j "v").toList.mapM (fun p => do
       match p with
-      | .arr #[.str k, v] => return (chars k, ← parseVal names v)
+      | .arr #[.str k, v] => return (chars k, ← subParseVal names v)
       | _ => throw "bad inst field")
     return .inst c fs
   | t => throw s!"bad value tag {t}"
 
-partial def valJson (names : Names) : Val → Json
+partial def subValJson (names : Names) : Val → Json
   | .int n => Json.mkObj [("t", "int"), ("v", Json.str (toString n))]
   | .str s => Json.mkObj [("t", "str"), ("v", jstr s)]
   | .none => Json.mkObj [("t", "none")]
-  | .list xs => Json.mkObj [("t", "list"), ("v", Json.arr (xs.map (valJson names)).toArray)]
+  | .list xs => Json.mkObj [("t", "list"), ("v", Json.arr (xs.map (subValJson names)).toArray)]
   | .dict kv => Json.mkObj [("t", "dict"), ("v", Json.arr (kv.map (fun p =>
-      Json.arr #[Json.mkObj [("t", "str"), ("v", jstr p.1)], valJson names p.2])).toArray)]
+      Json.arr #[Json.mkObj [("t", "str"), ("v", jstr p.1)], subValJson names p.2])).toArray)]
   | .inst c fs => Json.mkObj [("t", "inst"), ("cls", Json.str (clsName names c)),
-      ("v", Json.arr (fs.map (fun p => Json.arr #[jstr p.1, valJson names p.2])).toArray)]
+      ("v", Json.arr (fs.map (fun p => Json.arr #[jstr p.1, subValJson names p.2])).toArray)]
 
 /-- tagged raw JSON (keeps key order): {"j":"int","v":n} {"j":"str","v":s} {"j":"null"} {"j":"arr","v":[…]}
     {"j":"obj","v":[[k, J]…]} -/
@@ -89,7 +89,7 @@ def parseTy (names : Names) (j : Json) : R FTy := do
 def parseField (names : Names) (j : Json) : R Field := do
   let d : Option Val ← match j.getObjVal? "default" with
     | .ok .null => pure none
-    | .ok v => (parseVal names v).map some
+    | .ok v => (subParseVal names v).map some
     | .error _ => pure none
   return { name := chars (← str j "name"), init := (← bool j "init"), ty := ← parseTy names (← obj j "ty"),
            default := d }
@@ -118,8 +118,8 @@ def parsePi (names : Names) (c : Json) : R (Nat → List Nat) := do
     | _ => pure [])
   return fun i => table.getD i []
 
-def outJson (names : Names) : Out → Json
-  | .ok v => Json.mkObj [("o", "ok"), ("v", valJson names v)]
+def subOutJson (names : Names) : Out → Json
+  | .ok v => Json.mkObj [("o", "ok"), ("v", subValJson names v)]
   | .raise e => Json.mkObj [("o", "raise"), ("exc", jstr e)]
   | .unmodelled w => Json.mkObj [("o", "unmodelled"), ("why", jstr w)]
 
@@ -143,11 +143,11 @@ def opSubLoad (c : Json) : R Json := do
   let (names, cls) ← parseClasses c
   let Rt := resolve cls
   let base ← clsId names (← str c "base")
-  let v ← parseVal names (← obj c "inst")
+  let v ← subParseVal names (← obj c "inst")
   let save ← bool c "save"
   let π ← parsePi names c
   let d := encV Rt save v
-  return Json.mkObj [("dict", jJson d), ("out", outJson names (fromDict Rt π fuelDefault base d (optBool c "drop")))]
+  return Json.mkObj [("dict", jJson d), ("out", subOutJson names (fromDict Rt π fuelDefault base d (optBool c "drop")))]
 
 /-- op `sub.loaddict`: {classes, base, dict (tagged), drop, pi} ↦ {out} -/
 def opSubLoadDict (c : Json) : R Json := do
@@ -156,7 +156,7 @@ def opSubLoadDict (c : Json) : R Json := do
   let base ← clsId names (← str c "base")
   let d ← parseJ (← obj c "dict")
   let π ← parsePi names c
-  return Json.mkObj [("out", outJson names (fromDict Rt π fuelDefault base d (optBool c "drop")))]
+  return Json.mkObj [("out", subOutJson names (fromDict Rt π fuelDefault base d (optBool c "drop")))]
 
 def subclassOps : List (String × (Json → R Json)) :=
   [("sub.resolve", opSubResolve), ("sub.load", opSubLoad), ("sub.loaddict", opSubLoadDict)]
